@@ -23,13 +23,17 @@ class SrcScenario:
         self.mode, self.closure = mode, closure
         hdr = 4 + 2 * self.ids.id_w + self.ids.seq_w
         self.seg = P - hdr - 4 - (2 if crc else 0) if L is None else symex.smin(L, P - hdr - 4 - (2 if crc else 0))
-        self.S = ctx.int("S", 0, 2**20) if S is None else S
-        ctx.assume(self.S <= M * self.seg)
+        if S is None:
+            self.S = ctx.int("S", 0, 2**20)
+            ctx.assume(self.S <= M * self.seg)
+        else:
+            self.S = S
         self.M = M
         self.rig = SrcRig(w, self.ids, mode=mode, closure=closure, seg_len=L, max_packet_len=P,
                           cktype=cktype, crc=crc, **(rig_kwargs or {}))
         self.rig.fs.add_source_file("/src/file.bin", self.S)
         self.n = 0
+        self.vp = ""
         self.events = []
         self.cktype = cktype
 
@@ -93,8 +97,28 @@ class SrcScenario:
         o = self.rig.cancel(t)
         return self._done(o, ("CANCEL", "own" if tid is None else "other"))
 
+    def replay_on(self, ev):
+        k = ev[0]
+        if k == "SM":
+            return self.sm()
+        if k == "TICK":
+            return self._done(self.rig.sm(None), ("TICK", ev[1]))
+        if k == "NAK":
+            return self.nak(ev[1])
+        if k == "ACKEOF":
+            return self.ack_eof()
+        if k == "FIN":
+            from spacepackets.cfdp import ConditionCode as _CC
+            from spacepackets.cfdp.pdu.finished import DeliveryCode as _DC, FileStatus as _FS
+            return self.fin(_CC(ev[1]), _DC(ev[2]), _FS(ev[3]))
+        if k == "KA":
+            return self.keep_alive()
+        if k == "CANCEL":
+            return self.cancel()
+        raise symex.HarnessError(f"cannot replay {ev}")
+
     def step(self, alphabet):
-        i = self.n
+        i = f"{self.vp}{self.n}"
         self.n += 1
         ctx = self.ctx
         kind = ctx.pick(f"e{i}", list(alphabet))
